@@ -15,6 +15,19 @@ PROOF_LEVEL = {"C18", "C20"}
 EFFECT_BASED = {"C02", "C12", "C13", "C15"}
 
 
+def anchor_files(pid):
+    """files the property is anchored in (properties.jsonl, given and fixed)"""
+    here = os.path.dirname(os.path.dirname(os.path.abspath(__file__)))
+    try:
+        for ln in open(os.path.join(here, "properties.jsonl")):
+            o = json.loads(ln)
+            if o.get("id") == pid:
+                return list(o.get("anchors", {}).get("files", []))
+    except OSError:
+        pass
+    return []
+
+
 def thorough_extras(run, model, pid):
     """thorough tier = every quick rule + (a) whole-package scope where a rule has a scope, done inside the rule modules via `tier`;
     (b) for the effect-based properties the bytecode cross-check of the mutation-site enumeration; (c) a second, independent parse of
@@ -65,6 +78,9 @@ def main(argv=None):
         run.extra["pruned_gpu_arms"] = model.pruned_arms
         mod = importlib.import_module("sigverif.rules.%s" % pid.lower())
         mod.check(run, model, a.tier)
+        # the shared helpers the property's anchored code reaches (anchor files from properties.jsonl)
+        from .rules import shared
+        shared.check(run, model, anchor_files(pid))
         if a.tier == "thorough":
             thorough_extras(run, model, pid)
     except AnchorMissing as e:
